@@ -16,7 +16,12 @@ EXTENDS Semantics
 \* clauses of a set of files / a sequence of texts
 ClausesOfFiles(lib, fs) == UNION {Ran(lib.files[f]) : f \in fs}
 ClausesOfTexts(lib, ts) == UNION {Ran(lib.texts[ts[i]].clauses) : i \in DOMAIN ts}
+\* a library entry with a field decl stands for "Decl <head> descr [extensional()]": the predicate is known, later
+\* fragments may add facts (not rules) to it
+IsDecl(c) == "decl" \in DOMAIN c
 HeadsOf(cs) == {<<c.h.p, Len(c.h.a)>> : c \in cs}
+ExtPreds(cs) == {<<c.h.p, Len(c.h.a)>> : c \in {x \in cs : IsDecl(x)}}
+FactOnly(cs, p) == \A c \in cs : (<<c.h.p, Len(c.h.a)>> = p) => (c.b = <<>> /\ ~IsDecl(c))
 BodyRefs(cs) == UNION {{<<c.b[i][2].p, Len(c.b[i][2].a)>> : i \in {j \in DOMAIN c.b : c.b[j][1] \in {"pos", "neg"}}} : c \in cs}
 
 LoadedClauses(lib, frags) == UNION {ClausesOfFiles(lib, frags[i]) : i \in DOMAIN frags}
@@ -27,8 +32,8 @@ Known(lib, frags, buffer) == HeadsOf(LiveClauses(lib, frags, buffer))
 \* earlier live fragment, and it does not define a predicate that an earlier live fragment defines
 Acceptable(cs, earlier) ==
   /\ BodyRefs(cs) \subseteq HeadsOf(cs) \cup HeadsOf(earlier)
-  /\ HeadsOf(cs) \cap HeadsOf(earlier) = {}
-  /\ \A c \in cs : Safe(c)
+  /\ \A p \in HeadsOf(cs) \cap HeadsOf(earlier) : p \in ExtPreds(earlier) /\ FactOnly(cs, p)
+  /\ \A c \in cs : IsDecl(c) \/ Safe(c)
   /\ Stratifiable({c \in cs \cup earlier : c.b # <<>>})
 DefineOK(lib, frags, buffer, t) ==
   /\ \A i \in DOMAIN buffer : lib.texts[buffer[i]].valid
@@ -44,7 +49,7 @@ PopEffect(frags, buffer) ==
   IF buffer # <<>> THEN <<frags, <<>>>>
   ELSE IF frags # <<>> THEN <<SubSeq(frags, 1, Len(frags) - 1), <<>>>> ELSE <<frags, buffer>>
 
-Facts(cs) == {[p |-> c.h.p, a |-> c.h.a] : c \in {x \in cs : x.b = <<>>}}
+Facts(cs) == {[p |-> c.h.p, a |-> c.h.a] : c \in {x \in cs : x.b = <<>> /\ ~IsDecl(x)}}
 Rules(cs) == {c \in cs : c.b # <<>>}
 Visible(lib, frags, buffer) ==
   LET cs == LiveClauses(lib, frags, buffer) IN StratifiedModel(Rules(cs), Facts(cs))
